@@ -14,6 +14,7 @@ import (
 	"github.com/ctessum/geom/op"
 
 	"verif/mc/enum"
+	"verif/mc/geomgen"
 	"verif/mc/report"
 )
 
@@ -328,6 +329,30 @@ func judge(ps []poly, sp [][]spell, asMulti bool, aff int) {
 	if !asMulti {
 		pg = mp[0]
 		kind = "Polygon"
+	}
+	// memory layout: the same rings cut out of one flat vertex buffer (spare
+	// capacity reaching into the next ring) must give the same measures and
+	// must not be written to
+	if n := atomic.LoadInt64(&nEval); aff == 0 && (!allClosed || n%8 == 0) {
+		sym, det := geomgen.LayoutCheck(pg.(geom.Geom), func(x geom.Geom) string {
+			var out string
+			if p := try(func() {
+				xp := x.(geom.Polygonal)
+				out = fmt.Sprint(xp.Area(), *xp.Bounds(), xp.Len(), op.Area(x))
+				if allClosed {
+					// (Centroid is specified for closed rings only; on an
+					// unclosed ring Polygon.Centroid appends the closing
+					// vertex to the caller's slice - outside this property)
+					out += fmt.Sprint(xp.Centroid())
+				}
+			}); p != "" {
+				return "panic: " + p
+			}
+			return out
+		})
+		if sym != "" {
+			viol(kind+"|"+sym, det)
+		}
 	}
 	var got float64
 	if p := try(func() { got = pg.Area() }); p != "" {
